@@ -355,6 +355,13 @@ class DFXPWriter(BaseWriter):
         # Loop through all captions/nodes and apply transformations to layout
         # in function of the provided or default settings
         for lang in langs:
+            # The language-level layout becomes the region of the <div>: its
+            # absolute values (e.g. px) have to be turned into percentages too
+            lang_layout = caption_set.get_layout_info(lang)
+            if lang_layout and self.relativize:
+                caption_set.set_layout_info(
+                    lang, lang_layout.as_percentage_of(
+                        self.video_width, self.video_height))
             for caption in caption_set.get_captions(lang):
                 caption.layout_info = self._relativize_and_fit_to_screen(
                     caption.layout_info)
